@@ -5,6 +5,7 @@ import fn_rate as fr
 PID = "C10"
 MODEL_TARGETS = ["Generated", "Rate"]
 PROPS_TARGETS = ["Props_C10"]
+SUPPORT_TARGETS = ["FloatExact"]
 TRUSTED_BASE = ["geographiclib WGS84 inverse is a Section variable `geod` (nothing assumed), instantiated for evaluation by "
                 "the table of hop distances computed with geographiclib directly (argument order lat, lon)",
                 "modelled, not verified: numpy masked diff/division, timedelta64[ns]->[s] floor cast, mapdates on "
